@@ -13,6 +13,7 @@ import (
 	"io"
 	"os"
 	"path/filepath"
+	"runtime/pprof"
 	"sort"
 	"strings"
 	"sync"
@@ -395,7 +396,9 @@ func (w *world) record(tuple []string, marker string, sec int64) *base.LogRecord
 		fields = append(fields, string(append([]byte(nil), v...))) // private copy: the record owns its bytes
 	}
 	fields = append(fields, marker, "e")
-	rec := w.schema.NewTestRecord2(time.Unix(1600000000+sec, 0), fields)
+	rec, _ := w.args.Deallocator.NewRecord(nil) // reference count = number of outputs, as the parser would get it
+	copy(rec.Fields, fields)
+	rec.Timestamp = time.Unix(1600000000+sec, 0)
 	rec.RawLength = 100
 	return rec
 }
@@ -453,6 +456,12 @@ func inList(s string, list []string) bool {
 
 // runPair executes one case; returns the first violation (key, msg).
 func runPair(pc pairCase) (string, string) {
+	var marks []string
+	t0 := time.Now()
+	mark := func(s string) { marks = append(marks, fmt.Sprintf("%s=%.1fms", s, float64(time.Since(t0).Microseconds())/1000)) }
+	if os.Getenv("VERIF_TIMING") != "" {
+		defer func() { fmt.Fprintf(os.Stderr, "case took %v %v\n", time.Since(t0), marks) }()
+	}
 	root := hutil.ScratchRoot("seqkeys")
 	defer os.RemoveAll(root)
 	logCap.Reset()
@@ -479,7 +488,9 @@ func runPair(pc pairCase) (string, string) {
 	if pc.conns == 2 {
 		s2.Close()
 	}
+	mark("g1sent")
 	orc.Shutdown()
+	mark("g1down")
 	if l := logCap.FirstBugLine(); l != "" {
 		return "bug-log:gen1", l
 	}
@@ -573,7 +584,9 @@ func runPair(pc pairCase) (string, string) {
 	cap2.startup = false
 	nStartup := len(cap2.consumers)
 	cap2.mu.Unlock()
+	mark("g2start")
 	labelTuples := keyLabelTuples(mf2, w2.keys)
+	mark("g2labels")
 	t1 := orc2.NewSink("c3", 3)
 	t2 := t1
 	if pc.conns == 2 {
@@ -593,7 +606,9 @@ func runPair(pc pairCase) (string, string) {
 		}
 		time.Sleep(100 * time.Microsecond)
 	}
+	mark("g2wait")
 	orc2.Shutdown()
+	mark("g2down")
 	if l := logCap.FirstBugLine(); l != "" {
 		return "bug-log:gen2", l
 	}
@@ -695,6 +710,9 @@ func enumerate(ctx *seq.Ctx) {
 						if i == j {
 							continue
 						}
+						if ctx.Stop() {
+							return
+						}
 						if !ctx.Mine() {
 							ctx.Skip()
 							continue
@@ -719,6 +737,9 @@ func enumerate(ctx *seq.Ctx) {
 			if i == j {
 				continue
 			}
+			if ctx.Stop() {
+				return
+			}
 			if !ctx.Mine() {
 				ctx.Skip()
 				continue
@@ -731,6 +752,11 @@ func enumerate(ctx *seq.Ctx) {
 }
 
 func main() {
+	if pf := os.Getenv("VERIF_CPUPROFILE"); pf != "" {
+		f, _ := os.Create(pf)
+		pprof.StartCPUProfile(f)
+		go func() { time.Sleep(8 * time.Second); pprof.StopCPUProfile(); f.Close(); os.Exit(0) }()
+	}
 	logger.SetOutput(logCap)
 	logger.SetLogLevel(logger.ErrorLevel)
 	_ = io.Discard
@@ -738,6 +764,8 @@ func main() {
 	// the serializer allocates 2*InputLogMaxRecordBytes per pipeline; the records here are tiny
 	defs.InputLogMaxMessageBytes = 16 * 1024
 	defs.InputLogMaxRecordBytes = defs.InputLogMaxMessageBytes + 256
+	// every bufferer allocates a channel of BufferMaxNumChunksInQueue chunk slots (24 MB at the default 500000)
+	defs.BufferMaxNumChunksInQueue = 256
 	seq.Main(&seq.Config{
 		Property: "C06",
 		Level:    "exploration",
